@@ -72,5 +72,6 @@ Inductive ctx : Set :=
 | CCond                    (* if e / while e               parseCondition *)
 | CRange                   (* for x := range e             parseForStatement *)
 | CAssignTo (root : sty) (steps : list tstep)   (* v:T ; v<steps> = e   parseAssignmentTarget + parseAssignmentStatement *)
-| CAssignCall (t : sty).   (* func f:T ; f = e              (a function is not a target) *)
+| CAssignCall (t : sty)    (* func f:T ; f = e              (a function is not a target) *)
+| CRangeMore (rest : list expr).   (* for x := range e r1 r2 …   parseForStatement + parseStepRange (e is the first operand) *)
 
